@@ -533,7 +533,10 @@ class Universe:
         self.probe("add_of_attached_object_accepted")
         listed = [g for g in (old, new) if any(x is self.objs[c] for x in list(self.objs[g]))]
         if len(listed) > 1:
-            self.fail("C01.shape", f"after step {k} (add of an object that still has a parent): {self.objs[c]} is listed by {self.objs[old]} and by {self.objs[new]}; its parent is {self.objs[c].parent}", what="two-parents", op="x_add_attached")
+            def nm(o):
+                return f"<{type(o).__name__} {getattr(o, 'name', '?')}>"  # (repr of an assembly without a locator raises)
+
+            self.fail("C01.shape", f"after step {k} (add of an object that still has a parent): {nm(self.objs[c])} is listed by {nm(self.objs[old])} and by {nm(self.objs[new])}; its parent is {nm(self.objs[c].parent)}", what="two-parents", op="x_add_attached")
 
     def check_copy(self, k, op, src, cp):
         a = [src] + self.walk_deep(src)
